@@ -477,7 +477,12 @@ def check_memo_keys(ctx, fi, rule='R-MEMO/key-complete'):
                     vary |= {x.id for x in ast.walk(lp.target)
                              if isinstance(x, ast.Name)}
         else:
+            # the cache outlives the call: every parameter varies, and so
+            # does every variable of a loop around the store
             vary = set(params)
+            for lp in _enclosing(st, (ast.For,)):
+                vary |= {x.id for x in ast.walk(lp.target)
+                         if isinstance(x, ast.Name)}
         # the key, with plain locals resolved to what they were assigned
         key_atoms = set()
         e = tg
